@@ -1,6 +1,8 @@
 """C06 - freshness / positivity judgements are sound for every constraint-respecting instantiation."""
 from __future__ import annotations
 
+from frozendict import frozendict
+
 from .. import repo
 from ..gen import patterns as gp
 from ..gen import repo_patterns as rp
@@ -28,7 +30,7 @@ EXHAUSTIVE = {'quick': 'all meta-patterns with <=4 nodes (see rule) x variables 
 FLOORS = {'quick': {'rust:e_fresh:true': 500, 'rust:s_fresh:true': 500, 'rust:positive:true': 500, 'rust:negative:true': 500, 'rust:instances_checked': 20000,
                     'rust:stacked_substitutions': 200, 'py:evar_is_free:true': 2000, 'py:instances_checked': 20000, 'py:notation_cases': 200,
                     'py:class:EVar': 100, 'py:class:SVar': 100, 'py:class:Symbol': 100, 'py:class:Implies': 500, 'py:class:App': 500, 'py:class:Exists': 500, 'py:class:Mu': 300,
-                    'py:class:MetaVar': 300, 'py:class:ESubst': 200, 'py:class:SSubst': 200, 'py:class:Instantiate': 200, 'py:notation_vs_expansion': 1000}}
+                    'py:class:MetaVar': 300, 'py:class:ESubst': 200, 'py:class:SSubst': 200, 'py:class:Instantiate': 200, 'py:notation_vs_expansion': 1000, 'py:partial_instantiate_nodes': 200}}
 FLOORS['thorough'] = dict(FLOORS['quick'])
 
 MVARS = [tb.mv(0), tb.mv(1, (0,), (), (), (), ()), tb.mv(2, (), (), (0,), (), ()), tb.mv(3, (), (1,), (), (0,), ())]
@@ -147,13 +149,32 @@ def shard(ctx):
             cases.append((e, 'random'))
     for e, src in cases:
         spell = []
-        er = tb.to_repo(e, P)
-        spell.append((er, 'plain'))
-        if src == 'random':
-            f = rp.fold(e, rng, 0.8)
-            if rp.notation_depth(f) > 0:
-                spell.append((f, 'notation'))
-                ctx.count('py:notation_cases')
+        if src == 'random' and rng.random() < 0.2 and tb.metavar_ids(e):
+            # a partial Instantiate node: a (folded) base with only some of its metavariables bound by the node
+            ids = sorted(tb.metavar_ids(e))
+            keys = [i for i in ids if rng.random() < 0.5] or ids[:1]
+            inner = {i: rp.rand_term(rng, 1, meta=True, notation=0.2, substs=False, mvs=(0, 1, 2, 3)) for i in keys}
+            node = P.Instantiate(rp.fold(e, rng, 0.5), frozendict({i: rp.fold(v, rng, 0.3) for i, v in inner.items()}))
+            try:
+                e = tb.norm_py(tb.inst(e, inner, 'strict'))   # A10: the toolkit drops a substitution on a metavariable declaring the variable fresh
+            except tb.Capture:
+                ctx.count('py:partial_node_expansion_undefined')
+                continue
+            if tb.size(e) > 150:
+                continue
+            ctx.count('py:partial_instantiate_nodes')
+            er = tb.to_repo(e, P)
+            spell.append((er, 'plain'))
+            spell.append((node, 'notation'))
+            ctx.count('py:notation_cases')
+        else:
+            er = tb.to_repo(e, P)
+            spell.append((er, 'plain'))
+            if src == 'random':
+                f = rp.fold(e, rng, 0.8)
+                if rp.notation_depth(f) > 0:
+                    spell.append((f, 'notation'))
+                    ctx.count('py:notation_cases')
         vs = (0, 1) if src == 'exhaustive' else (rng.choice((0, 1, 2)),)
         for v in vs:
             answers = []
